@@ -580,6 +580,52 @@ def rule_D7(text):
     return re.sub(r'for (\w+) in (\w+) \{', rep, text), n
 
 
+def rule_D9(text):
+    """(LO..HI).map(|X| BODY).collect()   ->   { let mut verif_out = Vec::new(); let verif_hi = HI; let mut verif_k = LO;
+                                                 while verif_k < verif_hi { let X = verif_k; let verif_item = BODY; verif_out.push(verif_item); verif_k += 1; } verif_out }
+    (Iterator::map on a Range applies the closure to LO, LO+1, ..., HI-1 in order; collect::<Vec<_>>() pushes the results in order)"""
+    n = 0
+    while True:
+        m = re.search(r'\(((?:[^()]|\([^()]*\))*?)\.\.((?:[^()]|\([^()]*\))*?)\)\s*\.map\(\|(\w+)\|', text)
+        if not m:
+            break
+        lo, hi, var = m.group(1).strip(), m.group(2).strip(), m.group(3)
+        op = text.index('.map(', m.start()) + 4
+        cp = match_close(text, op, '(', ')')
+        body = text[m.end():cp].strip()
+        mc = re.match(r'\s*\.collect\(\)', text[cp + 1:])
+        if not mc:
+            raise ExtractError('unsupported construct: (a..b).map(..) not followed by .collect()')
+        rep = ('{ let mut verif_out = Vec::new(); let verif_hi = %s; let mut verif_k = %s;\n while verif_k < verif_hi {\n let %s = verif_k; let verif_item = %s;\n'
+               ' verif_out.push(verif_item); verif_k += 1;\n }\n verif_out }') % (hi, lo, var, body)
+        text = text[:m.start()] + rep + text[cp + 1 + mc.end():]
+        n += 1
+    return text, n
+
+
+def rule_D8(text):
+    """for X in &mut V { .. X.extend_from_slice(E) .. }  ->  for verif_i in 0..V.len() { .. verif_extend_at(&mut V, verif_i, E) .. }
+    (IntoIterator for &mut Vec<T> yields &mut V[0], &mut V[1], ... in order; the only use of X allowed in the body is the
+    receiver of extend_from_slice, whose std-documented effect is the contract of the model function verif_extend_at)"""
+    n = 0
+    while True:
+        m = re.search(r'for (\w+) in &mut (\w+) \{', text)
+        if not m:
+            break
+        x, v = m.group(1), m.group(2)
+        ob = m.end() - 1
+        cb = match_close(text, ob, '{', '}')
+        inner = text[ob + 1:cb]
+        uses = len(re.findall(r'\b' + re.escape(x) + r'\b', inner))
+        calls = len(re.findall(r'\b' + re.escape(x) + r'\.extend_from_slice\(', inner))
+        if uses != calls or calls == 0:
+            raise ExtractError('unsupported construct: `for %s in &mut %s` body uses %s other than as receiver of extend_from_slice' % (x, v, x))
+        inner = re.sub(r'\b' + re.escape(x) + r'\.extend_from_slice\(', 'verif_extend_at(&mut %s, verif_i, ' % v, inner)
+        text = text[:m.start()] + 'for verif_i in 0..%s.len() {' % v + inner + text[cb:]
+        n += 1
+    return text, n
+
+
 def rule_A3(body):
     """refusal-by-panic: `assert!(c);` -> `if !(c) { return verif_panic(); }` where verif_panic() models a panic (it never
     returns: `ensures false`). Used where the function must be SAFE for inputs it refuses, i.e. the asserts are its guard."""
